@@ -58,6 +58,8 @@ def run_c12(tier):
     preps = 1 if tier == 'quick' else 3
     # few distinct scalar pairs, so that the reference public keys (slow math/big G2 arithmetic) are computed once per value and memoised
     jobs += [{'kind': 'keygen', 'seed': vlib.jseed(seed, i % 6, 1000 + r), 'case': cs} for r in range(preps) for i, cs in enumerate(pools)]
+    # seeds whose prescribed scalar starts with 8 / 16 (thorough: 24) zero bits, found with the reference derivation
+    jobs.append({'kind': 'keygen-leading-zeros' + ('-deep' if tier == 'thorough' else ''), 'seed': seed, 'case': {}})
     execute(ck, 'C12', jobs)
     for cs in pools:
         ck.case(vlib.digest(cs['hist']), any(h['op'] == 'Agg' for h in cs['hist']))
